@@ -60,8 +60,8 @@ Proof. exact hb_py_equiv. Qed.
 
 Theorem C04_refines_sax : forall D F c self c',
   Inv D c -> step Async D F c (Run self) = SStep c' ->
-  exists ls, sax_steps F false (α c) ls (α c') /\ labels c' = labels c ++ ls.
-Proof. exact refines_sax. Qed.
+  exists ls, ((ls = [] /\ α c ≡ₚ α c') \/ sax_step F false (α c) ls (α c')) /\ labels c' = labels c ++ ls.
+Proof. exact refines_sax01. Qed.
 
 Theorem C04_refines_sax_run : forall D F c c', inv_steps D F c c' ->
   exists ls, sax_steps F false (α c) ls (α c') /\ labels c' = labels c ++ ls.
